@@ -209,3 +209,7 @@ func (w *World) SourceText(n ast.Node) string {
 	}
 	return s
 }
+
+// DefaultPkgs are the library packages (example/ and cmd/ are not loaded:
+// example/ does not compile on the pinned tree without generated code).
+var DefaultPkgs = []string{"./cache", "./client", "./database/...", "./mapper", "./model", "./modelgen", "./ovsdb/...", "./server", "./updates"}
